@@ -266,7 +266,7 @@ var ruleDropLastLine = &core.Rule{ID: "R13.1", Min: 9,
 
 // R13.3 + R13.4
 var ruleLineThresholds = &core.Rule{ID: "R13.3", Min: 8,
-	Doc: "thresholds and reader discipline: NDJSON accepts iff lines >= 2 and containers >= 1 (tabulated), counts every line and counts (or flags) a container iff the first token is object or array; CSV/TSV accept iff fields-per-record >= 2 and records >= 2 (tabulated), never set FieldsPerRecord (0 = all records must have the first record's count), use the detector's delimiter, stop on EOF only and reject on any other reader error; the NDJSON counters start at zero",
+	Doc: "thresholds and reader discipline: NDJSON accepts iff lines >= 2 and containers >= 1 (tabulated), counts every line and counts (or flags) a container iff the first token is object or array; CSV/TSV accept iff fields-per-record >= 2 and records >= 2 (tabulated), never set FieldsPerRecord (0 = all records must have the first record's count), use the detector's delimiter, stop on EOF only and reject on any other reader error; the NDJSON counters and the CSV record counter start at zero",
 	Run: func(c *core.Ctx, s *core.Sink) {
 		m := getLines(c)
 		jm := getJSON(c)
@@ -542,6 +542,11 @@ var ruleLineThresholds = &core.Rule{ID: "R13.3", Min: 8,
 			}
 		}
 		s.Check(okInc, "records counted one by one", c.Pos(g.Pos()), "lines++ per record", "the record counter is not incremented by one per record read")
+		for k, p := range ghdr.Preds {
+			if !ghdr.Dominates(p) {
+				s.Check(core.IsConstInt(lines.Edges[k], 0), "record counter starts at zero", c.Pos(g.Pos()), "lines := 0", "the record counter does not start at 0: the threshold `at least two records` is met by fewer records than that")
+			}
+		}
 	}}
 
 // errPathsCSV: every path from the Read call either stops on EOF, rejects on
